@@ -275,5 +275,9 @@ _run_rules = run
 def run(ctx):
     _run_rules(ctx)
     from .. import boundaries
+    boundaries.check(ctx, 'C17.RB', 'C17')
     boundaries.check_calls(ctx, 'C17.RC', 'C17')
+    from . import C16, C07
+    C16.r7_discard_frees(ctx, 'C17.R8')   # a reset that discards DATA also returns the window behind it
+    C07.r1_notify_all(ctx, 'C17.R9')      # an I/O error reaches every stream with its own kind, on every exit
     boundaries.check_guards(ctx, 'C17.RG', 'C17')
